@@ -5824,12 +5824,8 @@ class CodegenCtx:
             assert action.into_storage.holds_a(OutputStorageType.STR)
             # Check if we need to allocate
             if ProgramData.do(ProgramFlag.ALLOCATE_STR_SPACE_DYNAMIC_ON_DEMAND):
-                if is_start and action.into_storage.default_value is None:
-                    # if we're at the start, and there's no default value, and on demand is in effect, there's no possible way for state->c to have any value other than NULL
-                    result.add(f"state->c.{action.into_storage.name} = malloc({action.into_storage.str_size});")
-                else:
-                    # otherwise it may be NULL: never allocated, or (even with a default value allocated in start()) freed by a delete
-                    result.add(f"if (!state->c.{action.into_storage.name}) state->c.{action.into_storage.name} = malloc({action.into_storage.str_size});")
+                # it may be NULL (never allocated, or freed by a delete) or not (a default value, an earlier action -- also among the start actions)
+                result.add(f"if (!state->c.{action.into_storage.name}) state->c.{action.into_storage.name} = malloc({action.into_storage.str_size});")
             if len(action.value_expr) > action.into_storage.effective_string_size():
                 raise IllegalDFAStateError("Literal is too long for output", action)
             result.add(self._generate_set_string(action.value_expr, action.into_storage))
